@@ -53,6 +53,11 @@ EDITS = [
     ("locals renamed in IntersectEdges", E, None, "old_e1_windcnt->prev_wc1"),
     ("hot test hoisted into a local in DoTopOfScanbeam", E, "          if (IsHotEdge(*e)) AddOutPt(*e, e->top);\n          UpdateEdgeIntoAEL(e);", "          const bool is_hot = IsHotEdge(*e);\n          if (is_hot) AddOutPt(*e, e->top);\n          UpdateEdgeIntoAEL(e);"),
     ("abs via std::llabs in the open toggle", E, "      if (abs(edge_c->wind_cnt) != 1) return;\n      switch (cliptype_)", "      if (std::abs(edge_c->wind_cnt) != 1) return;\n      switch (cliptype_)"),
+    ("link writes of AddOutPt in another order", E, "    op_back->prev = new_op;\n    new_op->prev = op_front;\n    new_op->next = op_back;\n    op_front->next = new_op;", "    new_op->next = op_back;\n    new_op->prev = op_front;\n    op_front->next = new_op;\n    op_back->prev = new_op;"),
+    ("DoSplitOp publishes the new ring after closing it", E, "      newOr->pts = newOp;\n      splitOp->prev = newOp;\n      splitOp->next->next = newOp;", "      splitOp->prev = newOp;\n      splitOp->next->next = newOp;\n      newOr->pts = newOp;"),
+    ("JoinOutrecPaths: ends read through a helper local", E, "    OutPt* p1_end = p1_st->next;\n    OutPt* p2_end = p2_st->next;\n    if (IsFront(e1))", "    OutPt* p2_end = p2_st->next;\n    OutPt* p1_end = p1_st->next;\n    const bool e1_is_front = IsFront(e1);\n    if (e1_is_front)"),
+    ("DisposeOutPt keeps the neighbours in locals", E, "    OutPt* result = op->next;\n    op->prev->next = op->next;\n    op->next->prev = op->prev;\n    delete op;\n    return result;", "    OutPt* result = op->next;\n    OutPt* before = op->prev;\n    before->next = result;\n    result->prev = before;\n    delete op;\n    return result;"),
+    ("ProcessHorzJoins: OutRecList allocated before use in a local", E, "          if (!or1->splits) or1->splits = new OutRecList();\n          or1->splits->emplace_back(or2);", "          if (!or1->splits)\n          {\n            OutRecList* fresh_list = new OutRecList();\n            or1->splits = fresh_list;\n          }\n          or1->splits->emplace_back(or2);"),
 ]
 
 
